@@ -10,6 +10,15 @@ fn main() {
     run_main("C13", |ctx| {
         let d = model::dna();
         let am = model::amino();
+        // before anything else: the first translations of the process, from three threads at once
+        ctx.first_use_race(3, |t| {
+            let s: Seq<Dna> = ["ATGGCCATTGTAATGGGCCGCTGAAAGGGTGCCCGATAG", "TTTTTCTTATTGCTTCTCCTACTG", "GGGGGAGGTGGCTAATAGTGA"][t % 3].try_into().unwrap();
+            (
+                s.chunks(3).map(|c| STANDARD.to_amino(c).to_char()).collect::<String>(),
+                s.windows(3).map(|c| STANDARD.to_amino(c).to_char()).collect::<String>(),
+                s[1..].chunks(3).map(|c| STANDARD.to_amino(c)).collect::<Seq<Amino>>().to_string(),
+            )
+        });
         ctx.group("all-64-codons-at-every-position", |ctx| {
             // positions 0..=40 cover all 32 even bit offsets and both word-straddling placements
             for pos in 0..=40usize {
@@ -38,6 +47,31 @@ fn main() {
                 }
             }
             ctx.sample(|| json!({"grid": "64 codons x positions 0..=40 inside a longer random sequence", "oracle": "NCBI table 1"}));
+        });
+        ctx.group("codons-at-the-end-of-an-allocation", |ctx| {
+            // the codon is the last three bases of a sequence without spare words (whole-word lengths, also codons
+            // that straddle into the last word): looking at "the next word" while translating leaves the allocation
+            for (k, total) in [32usize, 64, 33, 34, 96, 31, 3].into_iter().enumerate() {
+                for c in 0..64u8 {
+                    if ctx.lite && (c as usize + k) % 16 != (ctx.shard + ctx.seed as usize) % 16 {
+                        continue;
+                    }
+                    let (b0, b1, b2) = (c & 3, (c >> 2) & 3, (c >> 4) & 3);
+                    let mut codes = rand_codes(&mut ctx.rng, d, total - 3);
+                    codes.extend([b0, b1, b2]);
+                    let seq = {
+                        let _fit = exact_fit_mode();
+                        mk::<Dna>(&codes)
+                    };
+                    ctx.eval();
+                    let want = model::ncbi_amino(b0, b1, b2);
+                    let r = observe(|| (STANDARD.to_amino(&seq[total - 3..]).to_char() as u8, seq.chunks(3).last().map(|c| STANDARD.to_amino(c).to_char() as u8), seq.windows(3).last().map(|c| STANDARD.to_amino(c).to_char() as u8)));
+                    let want_chunk = if total % 3 == 0 { Some(want) } else { let o = total - total % 3 - 3; Some(model::ncbi_amino(codes[o], codes[o + 1], codes[o + 2])) };
+                    check!(ctx, r == Ok((want, want_chunk, Some(want))), "to_amino|dna|allocation-end".to_string(), "codon {:?} ending an exact-capacity sequence of {total} bases: {:?}, NCBI table 1 says {:?}", d.text(&[b0, b1, b2]), r, want as char);
+                    cell!(ctx, "codon-at-allocation-end/total{total}");
+                    ctx.nontrivial(fp(&[b"ce", &[c, total as u8]]));
+                }
+            }
         });
         ctx.group("all-64-six-bit-patterns", |ctx| {
             for c in 0..64u8 {
